@@ -483,3 +483,15 @@ SILENT += [
            more=[(DEFER, "class QueueOverflow(Exception):", "_UNBOUNDED = float(\"inf\")\n\n\nclass QueueOverflow(Exception):"),
                  (DEFER, "            return succeed(self.pending.pop(0))\n", "            oldest = self.pending[0]\n            del self.pending[0]\n            return succeed(oldest)\n")]),
 ]
+
+_PUT_BOUND = ('        if self.waiting:\n            take = self.waiting.pop(0).callback\n        elif self.size is None or len(self.pending) < self.size:\n'
+              '            take = self.pending.append\n        else:\n            raise QueueOverflow()\n        take(obj)\n')
+SILENT += [
+    # recipient selected into a local bound method, then one dispatch
+    Silent("recipient-in-bound-method-local", DEFER, _PUT, _PUT_BOUND),
+]
+MUTANTS += [
+    # the generalised rules still fire through the bound method
+    Mutant("bound-method-serves-newest-get", DEFER, _PUT, _PUT_BOUND.replace("self.waiting.pop(0).callback", "self.waiting.pop().callback"), expect_rule="put/decision-table"),
+    Mutant("bound-method-dispatches-twice", DEFER, _PUT, _PUT_BOUND + "        take(obj)\n", expect_rule="put/decision-table"),
+]
